@@ -327,6 +327,42 @@ PROPS = {
             "the program stream is the hand-written library until the random module generator is merged",
         ],
     ),
+    "C03": dict(
+        prop_file="Properties/C03.v",
+        check_module="VmCheck",
+        theorems={
+            "C03_budget_bound": [],
+            "C03_run_total": [],
+            "C03_timeout_reported": [],
+            "C03_budget_monotone": [],
+            "C03_sufficient_budgets_agree": [],
+            "C03_timeout_reported_run": [],
+            "C03_budget_bound_legacy_refuted": [],
+        },
+        n_quick=200, n_thorough=2000,
+        gates=["feature.reentry", "feature.stdlib", "feature.while", "feature.call", "outcome.ETimeout",
+               "outcome.ECallStackOverflow", "need.found", "need.timeout_at_generous", "budget.zero",
+               "corpus.nested_budget", "corpus.stdlib_key_function_loops", "corpus.infinite_loop",
+               "corpus.infinite_recursion"],
+        rule="the VM stream (tools/props.py 'VM'): compiled corpus and random programs incl. While(1), unbounded "
+             "recursion, re-entrant natives and std.*_by_key with looping key functions, each run with budgets "
+             "{20000, need-1, need, need+1, random < need, 1, sometimes 0} (need = least budget without Timeout, by "
+             "bisection); observed: outcome, globals, host log, stack shape and Vm::remaining_iters after the run; "
+             "the model's remaining budget must equal the implementation's, so dispatched = N - remaining is compared "
+             "exactly; non-trivial = at least one run completes or more than 3 runs; distinct = distinct case term",
+        trusted_base=COMMON_TB + [
+            "modelled, not verified: vm.rs (_run, run, run_function), vm/instr_execution.rs, stdlib.rs natives, "
+            "traits.rs; no GC in the model (1 GiB limit in the harness)",
+            "the instruction counter is a ghost field of the model; on the implementation side it is derived from the "
+            "public field Vm::remaining_iters (dispatched = max_instr - remaining_iters while no Timeout occurred)",
+        ],
+        assumptions=[
+            "budget_monotone / sufficient_budgets_agree / timeout_reported_run are proved for runs without re-entry "
+            "(run_flat); with re-entry a native may swallow a nested Timeout (try1), so equality of outcomes for all "
+            "sufficient budgets needs the extra hypothesis that no Timeout was raised at any level - not proved",
+            "natives are the fixed menu of Vm.v plus the stdlib natives; an arbitrary host function is outside the theorem",
+        ],
+    ),
     "VM": dict(
         prop_file="Properties/VM.v",
         check_module="VmCheck",
